@@ -676,7 +676,12 @@ func (ex *Exec) checkPost(fr *Frame, rv []Val, ins *ssa.Return) {
 	}
 	for i, en := range c.Ensures {
 		name := fmt.Sprintf("%03d", i)
+		// postconditions are judged independently of each other (no assume after assert)
+		n := len(ex.st.pc)
 		ex.oblige("post", name, ins.Pos(), "postcondition: "+en.Text, ex.evalBool(en.E, env))
+		if ex.dry == nil && len(ex.st.pc) > n {
+			ex.st.pc = ex.st.pc[:len(ex.st.pc)-1]
+		}
 	}
 	ex.checkLockInvariantsAtReturn(fr, ins)
 	// frame
